@@ -89,8 +89,41 @@ def resolve(trace, k):
     return k
 
 
+def pre_init_upstream(w, trace, k, seen=None):
+    """the tasks held by the pre-tasks and init tasks of task k (searched by the code before it stops at k)"""
+    seen = set() if seen is None else seen
+    out = set()
+    for (k2, how) in w["jobs"][k]["embed"]:
+        base = how[:-4] if how.endswith("_obj") else how
+        if base in ("pre", "pre_task", "init"):
+            r = resolve(trace, k2)
+            out.add(r)
+            if r not in seen:
+                seen.add(r)
+                out |= pre_init_upstream(w, trace, r, seen)
+    return out
+
+
 def upstream(w, trace, j):
+    """the jobs submission j depends on by its parameters: the tasks embedded in them"""
     return sorted({resolve(trace, k) for (k, how) in w["jobs"][j]["embed"]})
+
+
+def upstream_allowed(w, trace, j):
+    """... plus what may legitimately be added: the tasks held by the pre-tasks / init tasks of an
+    embedded task object (the code searches them before it stops at that task)"""
+    out = set()
+    for (k, how) in w["jobs"][j]["embed"]:
+        r = resolve(trace, k)
+        out.add(r)
+        if how != "explicit":
+            out |= pre_init_upstream(w, trace, r)
+    return out
+
+
+def registered_upstream(trace, j):
+    """job dependencies as registered by submit() (an observable: job.dependencies)"""
+    return sorted({d[1] for d in (trace["deps"][j] or []) if d[0] == "job"})
 
 
 def last_snap(trace):
@@ -189,15 +222,8 @@ def oracle_c04_deps(w, trace, report):
         want = upstream(w, trace, j)
         if got != want:
             missing = [k for k in want if k not in got]
-            # a dependency on a task further upstream is implied anyway (the code also searches the
-            # pre-tasks and init tasks of a task it stops at): only a non-ancestor is reported
-            anc, todo = set(), list(want)
-            while todo:
-                k = todo.pop()
-                if k not in anc:
-                    anc.add(k)
-                    todo.extend(upstream(w, trace, k))
-            extra = [k for k in got if k not in anc]
+            allowed = upstream_allowed(w, trace, j)
+            extra = [k for k in got if k not in allowed]
             hows = sorted({h for (kk, h) in spec["embed"] if resolve(trace, kk) in missing})
             dupobj = any(h.endswith("_obj") and trace["dup"][kk] is not None for (kk, h) in spec["embed"]
                          if resolve(trace, kk) in missing)
@@ -236,12 +262,12 @@ DEPS_HEADER = ("From Coq Require Import List Bool.\nFrom XV Require Import model
 
 
 def effective_failed_ancestor(w, trace, res, j, memo):
-    """some upstream chain k -> ... -> j where k ended ERROR and no job strictly between (nor j) had
+    """some chain of registered job dependencies k -> ... -> j where k ended ERROR and no job strictly between (nor j) had
     already succeeded in an earlier run (a job whose marker pre-existed is DONE whatever its inputs)"""
     if j in memo:
         return memo[j]
     memo[j] = False
-    for k in upstream(w, trace, j):
+    for k in registered_upstream(trace, j):
         if res[k] == "ERROR" or (not w["jobs"][k]["marker"] and effective_failed_ancestor(w, trace, res, k, memo)):
             memo[j] = True
     return memo[j]
@@ -258,7 +284,7 @@ def oracle_c07(w, trace, report):
         if o is None or not o["registered"]:
             continue
         spec = w["jobs"][j]
-        ups = upstream(w, trace, j)
+        ups = registered_upstream(trace, j)
         if spec["marker"]:
             continue
         if effective_failed_ancestor(w, trace, res, j, memo):
